@@ -148,36 +148,62 @@ func (r *Runner) opsWith(l *Line, liftM uint64) lineResult {
 				w.fail(props, in, "missing.fn", "GetMissingPositions", want, sortedU64(got))
 			}
 		}
-		// partial map forest started from the bare roots holding a proof of A
-		m := utreexo.NewMapPollardFromRoots(append([]Hash{}, allRoots...), N, false)
-		min := &Inst{Name: "map.fromroots.63", Kind: KMapPart, M: &m}
-		pan = protect(func() {
-			if len(st.As) > 0 {
-				if err := m.Ingest(w.leafHashes(st.As), utreexo.Proof{Targets: ta, Proof: pa}); err != nil {
-					w.fail(props, min, "error", "Ingest failed: "+err.Error(), nil, nil)
+		// a map forest started from the bare roots that learns a proof of A: non-full or full
+		// (Full only concerns leaves added from then on), by Ingest or by a remembering verification
+		for vi, variant := range []struct {
+			full   bool
+			verify bool
+		}{{false, false}, {true, false}, {false, true}, {true, true}} {
+			m := utreexo.NewMapPollardFromRoots(append([]Hash{}, allRoots...), N, variant.full)
+			name := "map.fromroots.63"
+			if variant.full {
+				name += ".full"
+			}
+			if variant.verify {
+				name += ".verified"
+			}
+			min := &Inst{Name: name, Kind: KMapPart, M: &m}
+			_ = vi
+			pan = protect(func() {
+				if len(st.As) > 0 {
+					var err error
+					if variant.verify {
+						err = m.Verify(w.leafHashes(st.As), utreexo.Proof{Targets: ta, Proof: pa}, true)
+					} else {
+						err = m.Ingest(w.leafHashes(st.As), utreexo.Proof{Targets: ta, Proof: pa})
+					}
+					if err != nil {
+						w.fail(props, min, "error", "learning the proof of A failed: "+err.Error(), nil, nil)
+					}
+					// what it was asked to remember it tracks, at the true position
+					for i, h := range w.leafHashes(st.As) {
+						if pos, found := m.GetLeafPosition(h); !found || pos != ta[i] {
+							w.fail([]string{"C10", "C14"}, min, "leafpos", fmt.Sprintf("GetLeafPosition(L%d) after the instance was asked to remember it", st.As[i]), ta[i], []any{pos, found})
+						}
+					}
 				}
+				g := w.mon.begin(min, "MapPollard.GetMissingPositions")
+				arg := g.U("targets", tb)
+				gm := m.GetMissingPositions(arg)
+				g.end()
+				want := sortedU64(w.encTargets(exp.Missm, R))
+				if !eqU64s(sortedU64(gm), want) {
+					w.fail(props, min, "missing.map", "MapPollard.GetMissingPositions", want, sortedU64(gm))
+				}
+				// supplying the true hashes at the missing positions must verify
+				g = w.mon.begin(min, "VerifyPartialProof")
+				t2 := g.U("targets", tb)
+				dh := g.H("delHashes", w.leafHashes(st.Bs))
+				ph := g.H("proofHashes", w.sy.Hs(exp.Hs))
+				err := m.VerifyPartialProof(t2, dh, ph, false)
+				g.end()
+				if err != nil {
+					w.fail(props, min, "missing.verify", "VerifyPartialProof rejects the true hashes at the missing positions: "+err.Error(), nil, nil)
+				}
+			})
+			if pan != "" {
+				w.fail(props, min, "panic", "map forest completion panicked: "+pan, nil, nil)
 			}
-			g := w.mon.begin(min, "MapPollard.GetMissingPositions")
-			arg := g.U("targets", tb)
-			gm := m.GetMissingPositions(arg)
-			g.end()
-			want := sortedU64(w.encTargets(exp.Missm, R))
-			if !eqU64s(sortedU64(gm), want) {
-				w.fail(props, min, "missing.map", "MapPollard.GetMissingPositions", want, sortedU64(gm))
-			}
-			// supplying the true hashes at the missing positions must verify
-			g = w.mon.begin(min, "VerifyPartialProof")
-			t2 := g.U("targets", tb)
-			dh := g.H("delHashes", w.leafHashes(st.Bs))
-			ph := g.H("proofHashes", w.sy.Hs(exp.Hs))
-			err := m.VerifyPartialProof(t2, dh, ph, false)
-			g.end()
-			if err != nil {
-				w.fail(props, min, "missing.verify", "VerifyPartialProof rejects the true hashes at the missing positions: "+err.Error(), nil, nil)
-			}
-		})
-		if pan != "" {
-			w.fail(props, min, "panic", "map forest completion panicked: "+pan, nil, nil)
 		}
 	default:
 		panic(fmt.Sprintf("unknown ops step %q", st.A))
